@@ -487,6 +487,12 @@ func (x *MessageCertificateResults) Check() lib.ErrorI {
 	if x.Qc.Block != nil {
 		return lib.ErrNilBlock()
 	}
+	// the aggregate signature of an ELECTION_VOTE certificate covers only the header and the proposer key
+	// (see QuorumCertificate.SignBytes): it elects a proposer and certifies no results, so whatever results are
+	// attached to it (reward recipients, slash recipients, orders, checkpoint, retirement) are the sender's own
+	if x.Qc.Header.Phase == lib.Phase_ELECTION_VOTE {
+		return lib.ErrWrongPhase()
+	}
 	if err := checkChainId(x.Qc.Header.ChainId); err != nil {
 		return err
 	}
